@@ -57,7 +57,7 @@ def main():
             c = f["commit"]
             if len(sys.argv) > 2 and f["id"] not in sys.argv[2:]:
                 continue
-            rc, out = sh(["git", "-C", "/repo", "revert", "-n", c])
+            rc, out = sh(["git", "-C", "/repo", "revert", "-n"] + f.get("revert_commits", [c]))
             if rc != 0:
                 sh(["git", "-C", "/repo", "revert", "--abort"]); sh(["git", "-C", "/repo", "reset", "-q", "--hard", "HEAD"])
                 results["revert:" + f["id"]] = {"error": "revert does not apply cleanly (later fixes touch the same lines)"}
